@@ -205,6 +205,9 @@ class Ctx:
               "violations": len(self.violations)}
         # X.. ids are extension modules outside the given property list: their evidence is kept apart
         d = os.path.join(HOME, "evidence_extra" if self.prop.startswith("X") else "evidence")
+        if os.path.realpath(REPO) != "/repo":
+            # a run against another tree (VERIF_REPO=<scratch worktree>) says nothing about /repo: keep it apart
+            d = os.path.join(HOME, "scratch", "evidence_other_tree")
         os.makedirs(d, exist_ok=True)
         tmp = os.path.join(d, ".%s.json.tmp" % self.prop)
         with open(tmp, "w") as f:
